@@ -39,7 +39,7 @@ def checker(ctx) -> ptcheck.Checker:
 
 # generator shapes beyond the default stream (notes/C01.md, "Seeded changes"): integer channel ids incl. 0 and renamings
 # 'A' <-> 0, FunctionPTs whose expression is the time variable itself, nested scalar arithmetic in atomic composites
-GEN = {'int_chan_p': 0.25, 'plain_t_p': 0.2, 'nest_wrap_p': 0.15, 't_param_p': 0.6, 'remap_idx_p': 0.35}
+GEN = {'int_chan_p': 0.25, 'plain_t_p': 0.2, 'nest_wrap_p': 0.15, 't_param_p': 0.6, 'remap_idx_p': 0.35, 'self_map_p': 0.15}
 
 
 def shared_grid_case(rng: random.Random):
@@ -307,13 +307,74 @@ def _short_spec(spec) -> str:
     return '/'.join(ptgen.spec_kinds(spec))
 
 
+DECIMAL_BODIES = [('0.7', '0.3'), ('0.1', '0.05'), ('0.3', '0.1'), ('1.2', '0.5'), ('2.35', '1.1'), ('0.05', '0.02'),
+                  ('0.9', '0.4'), ('0.6', '0.2'), ('0.1', '0.03'), ('0.7', '0.45')]
+
+
+def decimal_boundary_case(rng: random.Random):
+    """Pieces with short *decimal* durations (0.1, 0.7, 2.35: exact as rationals, not as floats) repeated / sequenced /
+    iterated at the top level of the program, sampled through `to_waveform(program).get_sampled` exactly ON the piece
+    boundaries t = float(k*d) (what a sample clock k/sample_rate produces) and at segment midpoints.  The pieces are
+    piecewise constant tables (hold / jump) with dyadic voltages and a start value different from the end value, so
+    every sample is exact and a boundary sample shows which repetition it was attributed to.  Only ONE composite level
+    (a top-level RepetitionWaveform or SequenceWaveform): nested composites round their local times (open findings
+    PF-C08e / PF-C06-3)."""
+    volts = lambda: ptgen.fstr(F(rng.randrange(-16, 17), 8))      # noqa
+
+    def table(d, t1, a=None, b=None, c=None):
+        es = [['0', a or volts(), 'hold'], [t1, b or volts(), rng.choice(['hold', 'jump'])], [d, c or volts(), rng.choice(['hold', 'jump'])]]
+        while es[0][1] == es[1][1]:
+            es[1][1] = volts()
+        entries = [['A', es]]
+        if rng.random() < 0.3:
+            entries.append(['B', [['0', volts(), 'hold'], [d, volts(), 'hold']]])
+        return {'k': 'table', 'entries': entries, 'meas': [], 'cons': []}
+
+    kind = rng.choice(['rep', 'rep', 'rep', 'seq', 'for'])
+    params = {}
+    if kind == 'rep':
+        d, t1 = rng.choice(DECIMAL_BODIES)
+        n = rng.choice([3, 4, 5, 6, 7, 9, 10, 12])
+        count = str(n)
+        if rng.random() < 0.4:
+            count, params = 'n', {'n': n}
+        spec = {'k': 'rep', 'body': table(d, t1), 'count': count, 'meas': [], 'cons': []}
+        pieces = [(F(d), F(t1))] * n
+    elif kind == 'seq':
+        two = rng.random() < 0.3
+        parts = [rng.choice(DECIMAL_BODIES) for _ in range(rng.choice([3, 4, 5, 6]))]
+        subs = [table(d, t1) for d, t1 in parts]
+        if two:
+            for x in subs:
+                if len(x['entries']) == 1:
+                    x['entries'].append(['B', [['0', volts(), 'hold'], [x['entries'][0][1][-1][0], volts(), 'hold']]])
+        else:
+            for x in subs:
+                del x['entries'][1:]
+        spec = {'k': 'seq', 'subs': subs, 'meas': [], 'cons': []}
+        pieces = [(F(d), F(t1)) for d, t1 in parts]
+    else:
+        d, t1 = rng.choice(DECIMAL_BODIES)
+        n = rng.choice([3, 4, 5, 7])
+        body = table(d, t1, 'i', 'i + 0.5', '0')
+        del body['entries'][1:]
+        spec = {'k': 'for', 'body': body, 'idx': 'i', 'range': ['0', str(n), '1'], 'meas': [], 'cons': []}
+        pieces = [(F(d), F(t1))] * n
+    grid, t = set(), F(0)
+    for d, t1 in pieces[:16]:
+        grid.update([t, t + t1 / 2, t + (t1 + d) / 2])
+        t += d
+    return {'spec': spec, 'params': params, 'cm': {}, 'mm': None, 'single': [], 'grid': [str(x) for x in sorted(grid)]}
+
+
 def run(ctx: core.Ctx):
     ctx.rule = ('random well-formed template trees over all 13 node kinds built from the real qupulse classes '
                 '(depth <= 4 quick / <= 6 thorough; parameters, loop ranges incl. empty/negative/non-dividing, injective '
                 'channel mappings with dropped channels, measurements, identifiers; dyadic numbers, power-of-two segment '
                 'lengths so float arithmetic is exact), all nestings of depth <= 3 over two atoms, and a single-fault '
                 'malformed stream; a quarter of the random cases use the integer channel ids 0, 1, 2 with renamings between integer and '
-                'string names; function templates whose expression is the time variable itself; mappings below an iteration that re-define '
+                'string names; function templates whose expression is the time variable itself; a family of piecewise constant pieces with decimal '
+                'durations repeated / sequenced at the top level and sampled exactly on the piece boundaries float(k*d); mappings below an iteration that re-define '
                 'the loop index, with repetition / sequence levels below (generator option and a dedicated family); a family '
                 'of time-reversed atomic pulses under time-dependent (affine in t) scalar arithmetic / parallel-channel values, '
                 'judged against denote of the atomic pulse at dur - t combined with the exactly evaluated operand; a scope entry literally called t (a renamed '
@@ -347,6 +408,9 @@ def run(ctx: core.Ctx):
     base = ctx.fork('remap-index').getrandbits(48)
     descs += [ck.desc(family='custom', make=remap_index_case, seed=base + i, label='remapped-loop-index')
               for i in range(ctx.n(100, 2000))]
+    base = ctx.fork('decimal-boundary').getrandbits(48)
+    descs += [ck.desc(family='custom', make=decimal_boundary_case, seed=base + i, label='decimal-boundaries')
+              for i in range(ctx.n(120, 2500))]
     base = ctx.fork('malformed').getrandbits(48)
     descs += [ck.desc(family='malformed', seed=base + i) for i in range(ctx.n(150, 3000))]
     ck.run_batch(descs)
